@@ -471,7 +471,16 @@ def extract_fragment(src, toks, relpath, item, spec, ex):
                 edits.append((toks[i].start, toks[i + 2].end - toks[i].start, fld, 'rewrite:R6'))
                 ex.rewrites.append({'rule': 'R6', 'where': '%s:%d' % (relpath, toks[i].line), 'fn': item['fn'],
                                     'before': 'self.' + fld, 'after': fld})
-    if any(t.kind == 'ident' and t.text == 'self' and not (toks[i + 1].text == '.' and toks[i + 2].text in item.get('self_fields', []))
+    # R6 (calls): `self.m(args)` -> `m(this, args)` for the methods listed in unit.toml; the callee is a
+    # stub declared in the prelude (external_body + assumed contract), never the real method
+    for m in item.get('self_calls', []):
+        for i in range(fs, fe - 2):
+            if toks[i].kind == 'ident' and toks[i].text == 'self' and toks[i + 1].text == '.' \
+                    and toks[i + 2].kind == 'ident' and toks[i + 2].text == m and toks[i + 3].text == '(':
+                edits.append((toks[i].start, toks[i + 3].end - toks[i].start, '%s(this, ' % m, 'rewrite:R6'))
+                ex.rewrites.append({'rule': 'R6', 'where': '%s:%d' % (relpath, toks[i].line), 'fn': item['fn'],
+                                    'before': 'self.%s(' % m, 'after': '%s(this, ' % m})
+    if any(t.kind == 'ident' and t.text == 'self' and not (toks[i + 1].text == '.' and toks[i + 2].text in (item.get('self_fields', []) + item.get('self_calls', [])))
            for i, t in enumerate(toks[fs:fe + 1], fs)):
         raise Undecided('unsupported', 'fragment %s: `self` is used other than through the listed fields' % name)
     header = 'fn %s%s(%s) -> (%s: %s)\n%s{\n' % (name, item.get('generics', ''), item['params'],
